@@ -637,6 +637,9 @@ func (e *Engine) freshMap(st *State, nm string, m *types.Map) *MapV {
 		st.Assume(Implies(Eq(mv.Ref, Int(0)), Eq(mv.Dom, constArray(ks, SBool, False))))
 		st.Assume(Ge(mv.Ref, Int(0)))
 	}
+	if opaqueElem(m.Elem()) {
+		return mv
+	}
 	for _, leaf := range mapLeaves(m.Elem(), "") {
 		mv.Val[leaf.name] = Var(nm+".val"+leaf.name, SArr(ks, leaf.sort))
 	}
